@@ -1,7 +1,6 @@
 #!/bin/sh
 # Runs every claimed check (quick by default) on /repo and prints the summary lines.  selftest/runall.sh [tier]
 cd /verif
-for f in checklib/props.d/*.json; do
-  id=$(basename $f .json)
+for id in $(grep -v "^#" checklib/ready.txt); do
   ./check $id --tier ${1:-quick} 2>&1 | grep -E "^(VIOLATION|$id )" | cut -c1-220
 done
